@@ -317,7 +317,14 @@ fn check_inst(l: &mut Local, case: &Case, inst: &InstRep, maps: &[Vec<(u64, FnRe
     let mut orig = inst.clone();
     orig.dependencies.clear();
     let given_for_ref: Vec<(u64, f64)> = full.clone();
-    let expected = ref_evaluate(&orig, &given_for_ref);
+    // a bound constrains the values a caller supplies; the value of a replacement is reported as it is
+    let mut orig_ref = orig.clone();
+    for v in orig_ref.vars.iter_mut() {
+        if replaced.contains(&v.id) {
+            v.bound = None;
+        }
+    }
+    let expected = ref_evaluate(&orig_ref, &given_for_ref);
     match (expected, got) {
         (Ok(exp), Ok((sol, _))) => {
             for (sig, d) in compare_solution_opts(&sol, &exp, &orig, true, false) {
@@ -404,6 +411,8 @@ fn replacement_pool(key: u64) -> Vec<Option<FnRep>> {
         Some(FnRep::Quad { entries: vec![(4, 3, 1.0)], lin: Some((vec![], -0.5)) }),
         Some(FnRep::Const(0.0)),
         Some(FnRep::Lin { terms: vec![(key, 1.0)], c: 0.0 }),
+        // unnormalised replacement: the same id listed twice, unsorted
+        Some(FnRep::Lin { terms: vec![(4, 1.0), (3, 1.0), (4, 2.0)], c: 0.5 }),
     ]
 }
 
@@ -422,14 +431,18 @@ fn c04_instances(tier: Tier) -> Vec<InstRep> {
     for o in &objs {
         for (ci, c) in cf.iter().enumerate() {
             for removed in [false, true] {
-                for dep in [false, true] {
+                for (dep, bounded) in [(false, false), (true, false), (false, true), (true, true)] {
+                    // bounded: the variables that get replaced carry finite bounds which the state values
+                    // respect but the replacement values need not (the bound constrains given values only)
+                    let b2 = if bounded { Some((-1.0, 0.5)) } else { None };
+                    let b7 = if bounded { Some((-1.0, 2.0)) } else { None };
                     let mut inst = InstRep {
                         sense: SENSE_MIN,
                         objective: o.clone(),
                         vars: vec![
                             VarRep::new(1, KIND_CONTINUOUS, None),
-                            VarRep::new(2, KIND_CONTINUOUS, None),
-                            VarRep::new(7, KIND_INTEGER, None),
+                            VarRep::new(2, KIND_CONTINUOUS, b2),
+                            VarRep::new(7, KIND_INTEGER, b7),
                             VarRep::new(8, KIND_CONTINUOUS, Some((1.0, f64::INFINITY))),
                             VarRep::new(9, KIND_CONTINUOUS, None),
                         ],
@@ -466,7 +479,7 @@ pub fn run(ctx: &Ctx) -> Finish {
     let keys = [1u64, 2, 7, 9];
     let pools: Vec<Vec<Option<FnRep>>> = keys.iter().map(|k| replacement_pool(*k)).collect();
     let mut maps: Vec<Vec<(u64, FnRep)>> = vec![];
-    odometer(&[7, 7, 7, 7], |d| {
+    odometer(&[8, 8, 8, 8], |d| {
         let m: Vec<(u64, FnRep)> = (0..4).filter_map(|i| pools[i][d[i]].clone().map(|f| (keys[i], f))).collect();
         maps.push(m); // includes the empty map (early-return path of substitute)
     });
@@ -490,6 +503,7 @@ pub fn run(ctx: &Ctx) -> Finish {
         vec![(7, FnRep::Quad { entries: vec![(1, 1, 1.0)], lin: None })],
         vec![(2, lin(vec![(1, 2.0), (8, -1.0)], 0.0)), (7, lin(vec![(8, 1.0)], -1.0))],
         vec![(7, FnRep::Poly { terms: vec![(vec![8, 1], 1.0)] })],
+        vec![(2, lin(vec![(8, 1.0), (1, 1.0), (8, 2.0)], 0.5))],
     ];
     let second_maps: Vec<Option<Vec<(u64, FnRep)>>> = vec![None, Some(vec![(1, lin(vec![(8, 2.0)], 0.5))]), Some(vec![(1, FnRep::Const(-1.0))])];
     let states: Vec<Vec<(u64, f64)>> = vec![
@@ -617,7 +631,7 @@ pub fn run(ctx: &Ctx) -> Finish {
     ctx.note("dependency_graphs", json!(graphs_total));
     Finish {
         level: "model_checking",
-        rule: "(1) Function::substitute: function family x every replacement map over keys {1,2,7,9} with each entry from 6 replacement shapes (7^4 maps incl. the empty one; replacements mention other replaced ids to test simultaneity); (2) Instance::substitute: instance family x first map x optional second map (chain) x states, under every iteration order of the dependency map (hook H1), composed instance compared as polynomials and the Solution compared with the original evaluated at the completed state; log_encode->substitute->evaluate on every bit pattern; (3) every dependency graph on n dependents (each sums any subset of {other dependents, itself, a valued variable, a value-less variable}) x every one of the n! iteration orders through the real Instance::evaluate, oracle = Kahn; watchdog turns a hang into a violation".into(),
+        rule: "(1) Function::substitute: function family x every replacement map over keys {1,2,7,9} with each entry from 7 replacement shapes incl. an unnormalised one (8^4 maps incl. the empty one; replacements mention other replaced ids to test simultaneity); (2) Instance::substitute: instance family (replaced variables with and without finite bounds that the replacement values exceed) x first map (incl. an unnormalised linear replacement) x optional second map (chain) x states, under every iteration order of the dependency map (hook H1), composed instance compared as polynomials and the Solution compared with the original evaluated at the completed state; log_encode->substitute->evaluate on every bit pattern; (3) every dependency graph on n dependents (each sums any subset of {other dependents, itself, a valued variable, a value-less variable}) x every one of the n! iteration orders through the real Instance::evaluate, oracle = Kahn; watchdog turns a hang into a violation".into(),
         bounds: json!({"graph_n_max_exhaustive": max_n, "graph_n5": "chains/cycles/diamonds/complete DAG", "replacement_keys": keys, "function_family": fs.len()}),
         exhaustive: true,
     }
